@@ -53,6 +53,9 @@ def rationalise(x):
     if abs(fr.numerator) <= 10 ** 6 and fr.numerator / fr.denominator == x:
         s = '((%d : ℝ) / %d)' % (abs(fr.numerator), fr.denominator)
         return (s if fr > 0 else '(-%s)' % s), 'rat'
+    # Euler's number: the correctly rounded double of e (cog3.py types it as 2.718281828459045)
+    if abs(x) == math.e:
+        return ('(Real.exp (1 : ℝ))' if x > 0 else '(-(Real.exp (1 : ℝ)))'), 'e'
     # rational multiple of pi
     q = fractions.Fraction(x / math.pi).limit_denominator(1000)
     if q != 0 and abs(q.numerator) <= 1000:
@@ -151,6 +154,13 @@ class Emitter(object):
             # application of an uninterpreted function parameter
             f = self.sym(a[0])
             return '(%s %s)' % (f, ' '.join(self.e(y) for y in a[1:]))
+        if op in ('max', 'min'):
+            # Python's builtin max(a, b) / min(a, b) kept as ONE operation (opt-in shim, see targets/t_burn.py):
+            # max keeps a unless b > a, min keeps a unless b < a
+            if real:
+                return '(%s %s %s)' % (op, self.e(a[0]), self.e(a[1]))
+            return '(if %s %s %s then %s else %s)' % (self.e(a[1]), '>' if op == 'max' else '<', self.e(a[0]),
+                                                      self.e(a[1]), self.e(a[0]))
         raise TraceError('emit: unknown op %s' % op)
 
     def c(self, b):
